@@ -201,6 +201,12 @@ def scan_rules(ctx, P):
     found, minfilters = {}, {}
     for ci, fn in P.all_functions():
         for sc in scans.find_scans(fn):
+            # a scan over a collection handed in by the callers (a generic "earliest of these" helper fed with generators): which collection and which filters
+            # each caller supplies is not visible in the scan itself -- undecided rather than judged against the wrong table entry
+            params_ = {a.arg for a in fn.args.args}
+            if isinstance(sc.loop.iter, ast.Name) and sc.loop.iter.id in params_ and fn.name not in rules.ANCHOR_METHODS:
+                ctx.unrecognised("SCAN: %s scans a collection supplied by its callers (`%s`); the callers' collections and filters are not resolved" % (P.func_name(fn), sc.loop.iter.id))
+                continue
             for q in ctx._anchor_wheres(P.func_name(fn)):       # a scan moved into a helper still belongs to the pinned method it serves
                 found.setdefault(q, []).append(sc)
         for mf in scans.find_minfilters(fn):
